@@ -668,13 +668,14 @@ func main() {
 	for _, q := range q6 {
 		inS1[q] = true
 	}
-	// every spelling denotes 0, 0.001, 0.1000000000000000001, 0.25, 0.5, 0.9 or 1
+	// every spelling denotes 0, 0.001, 0.1000000000000000001, 0.111..1 (64 digits), 0.25, 0.5, 0.9 or 1
 	qFull := []string{"", "0", "0.", "0.0", "0.000", "0.001", "0.25", "0.5", "0.50", "0.500", "0.5000", "0.9", "1", "1.", "1.0", "1.000",
 		"0.5" + rep("0", 16), "0.5" + rep("0", 17), // 17 and 18 digits
 		"0.5" + rep("0", 18), "0.9" + rep("0", 18), "0.1" + rep("0", 17) + "1", "0.001" + rep("0", 16), // 19 digits
 		"0.5" + rep("0", 19), "0.5" + rep("0", 63), "0.9" + rep("0", 69), // 20, 64, 70 digits
-		"0." + rep("0", 19), "0." + rep("0", 64), "1." + rep("0", 19), "1." + rep("0", 64)}
-	q12 := []string{"", "0", "0.5", "0.50", "0.9", "1.0", "0.001", "0.5" + rep("0", 17), "0.5" + rep("0", 18), "0.5" + rep("0", 63), "0." + rep("0", 64), "1." + rep("0", 64)}
+		"0." + rep("0", 19), "0." + rep("0", 64), "1." + rep("0", 19), "1." + rep("0", 64),
+		"0." + rep("1", 64)} // 0.111..1: on the pinned tree n/0 = +Inf
+	q12 := []string{"", "0", "0.5", "0.50", "0.9", "1.0", "0.001", "0.5" + rep("0", 17), "0.5" + rep("0", 18), "0.5" + rep("0", 63), "0." + rep("0", 64), "1." + rep("0", 64), "0." + rep("1", 64)}
 	r.Set("q_spellings", map[string]any{"select": q6, "full": qFull})
 	r.Set("offer_alphabet", offers5)
 	r.Set("range_alphabet", ranges6)
@@ -736,7 +737,7 @@ func main() {
 	for _, ol := range offerLists([]string{"gzip", "br", "identity"}, 3) {
 		encOffers = append(encOffers, ol.raw)
 	}
-	qEnc := []string{"", "0", "0.5", "0.9", "0.50", "0.5" + rep("0", 18), "0.5" + rep("0", 63), "0." + rep("0", 64)}
+	qEnc := []string{"", "0", "0.5", "0.9", "0.50", "0.5" + rep("0", 18), "0.5" + rep("0", 63), "0." + rep("0", 64), "0." + rep("1", 64)}
 	if !thorough {
 		encodingSweep(r, "encoding", true, headers(elemProduct(codings, qEnc, none, none), 0, 2, []int{1}, false, nil), encOffers)
 		encodingSweep(r, "encoding-3-codings", false, headers(elemProduct(codings, []string{"", "0", "0.5"}, none, none), 3, 3, []int{0}, false, nil), encOffers)
